@@ -141,6 +141,7 @@ def run(ctx):
             cov["durable_steps_trace_compared"] = summ.get("trace_durable_steps", 0)
             cov["micro_step_kinds"] = summ.get("micro_kinds", "")
             cov["crash_databases_compared_with_model"] = summ.get("crashdb_compared", 0)
+            cov["restart_memory_reads_compared_with_users_table"] = summ.get("restart_memory_compared", 0)
             cov["crash_databases_skipped_inside_unordered_loop"] = summ.get("crashdb_skipped", 0)
             cov["crash_runs_with_chain_moving_while_down"] = summ.get("down_cases", 0)
             cov["exhaustive"] = True
@@ -183,7 +184,7 @@ def replay(ctx, path):
     return 1 if fails else 0
 
 
-BALANCE_KINDS = {"crash-granted-slots", "crash-granted-slots-interrupted-update", "crash-cost-more-than-request"}
+BALANCE_KINDS = {"restart-memory-differs-from-users-table", "crash-granted-slots", "crash-granted-slots-interrupted-update", "crash-cost-more-than-request"}
 
 
 def crash_probe(ctx, pid, histories, only=None):
